@@ -74,7 +74,25 @@ class VersionedSource:
 
     def fetch(self, start, end, *, reverse=False):
         self.log.append((self.clock.t, start, end))
-        return self._tl().fetch(start, end, reverse=reverse)
+        it = self._tl().fetch(start, end, reverse=reverse)
+        if self.fail_after is None:
+            return it
+        k, self.fail_after = self.fail_after, None
+        return self._failing(it, k)
+
+    fail_after = None          # k: the next fetch raises after having yielded k events
+
+    @staticmethod
+    def _failing(it, k):
+        for i, ev in enumerate(it):
+            if i >= k:
+                break
+            yield ev
+        raise SourceFault("transient failure of the source")
+
+
+class SourceFault(Exception):
+    pass
 
 
 def obs_iv(r, masked):
@@ -95,20 +113,27 @@ def run_history(case):
     try:
         src = VersionedSource(case["evs"], clock, case.get("compound", False), case["masked"])
         c = cached(src, ttl=case["ttl"], key=("cal", "uid") if case.get("compound") else "id")
-        outs, logs, evt = [], [], []
+        outs, logs, evt, failed = [], [], [], []
         for op in case["ops"]:
-            if op[0] == "q":
+            if op[0] == "fault":
+                src.fail_after = op[1]           # the next source fetch fails after op[1] events
+            elif op[0] == "q":
                 _, a, b, rev = op
                 n0 = len(src.log)
-                evt.append(clock.t)
-                res = list(c.fetch(a, b, reverse=rev))
+                t_ev = clock.t
+                try:
+                    res = list(c.fetch(a, b, reverse=rev))
+                except SourceFault:
+                    failed.append(len(outs) + len(failed))
+                    continue                     # the source's own exception reaches the caller: fine
+                evt.append(t_ev)
                 outs.append([obs_iv(r, case["masked"]) for r in res])
                 logs.append([list(x) for x in src.log[n0:]])
             elif op[0] == "adv":
                 clock.t += op[1]
             elif op[0] == "mut":
                 src.ver += 1
-        return dict(outs=outs, logs=logs, evt=evt)
+        return dict(outs=outs, logs=logs, evt=evt, failed=failed)
     except Exception as ex:  # any exception escaping a query is part of the observation
         return {"err": type(ex).__name__ + ": " + str(ex)[:200]}
     finally:
@@ -190,7 +215,19 @@ class CacheFamily(Family):
 
     def coq_case(self, case, obs):
         evs = clist([civl([s, e, None if case["masked"] else key * KEYMOD]) for (s, e, key) in case["evs"]])
-        ops = clist([coq_op(o) for o in case["ops"]])
+        # queries on which the source failed are not shown to the Coq side (the faults part judges the
+        # ANSWERED queries only, each against the source — its check functions are stateless)
+        nq, kept = 0, []
+        for o in case["ops"]:
+            if o[0] == "fault":
+                continue
+            if o[0] == "q":
+                if nq in obs.get("failed", []):
+                    nq += 1
+                    continue
+                nq += 1
+            kept.append(o)
+        ops = clist([coq_op(o) for o in kept])
         outs = clist([clist([civl(o) for o in out]) for out in obs["outs"]])
         logs = clist([clist([f"({cz(t)}, {cz(a)}, {cz(b)})" for (t, a, b) in lg]) for lg in obs["logs"]])
         evt = clist([cz(t) for t in obs["evt"]])
@@ -249,10 +286,46 @@ class CacheFamily(Family):
         return c
 
 
+class FaultFamily(CacheFamily):
+    """Histories in which the source sometimes fails part-way through a fetch (a paginated backend
+    failing on a later page).  The failure itself reaches the caller; what the property demands is
+    that every query that IS answered afterwards equals the source's slice, each event whole and
+    once.  The state of a cache after a failed fill is not modelled, so this part judges the
+    answered queries with the stateless per-query oracle (the model plays no role in it)."""
+    corr = "oracle_C09"
+
+    def __init__(self, prop, n_quick, n_thorough):
+        super().__init__(prop, "oracle_C09", False, n_quick, n_thorough, "source_faults")
+        self.rule = ("histories as in part histories, with the source armed to raise after yielding 0-2 events of "
+                     "its next fetch before 1-3 of the queries; the answered queries are judged against the source; "
+                     "non-trivial = some query failed and a later one returned an interval")
+
+    def gen(self, rng, tier, n):
+        for case in super().gen(rng, tier, n):
+            ops = []
+            for o in case["ops"]:
+                if o[0] == "q" and rng.random() < 0.35:
+                    ops.append(["fault", rng.choice([0, 0, 1, 1, 2])])
+                    ops.append(o)
+                    if rng.random() < 0.7:
+                        ops.append(list(o))            # the caller retries at once
+                else:
+                    ops.append(o)
+            yield dict(case, ops=ops)
+
+    def nontrivial(self, case, obs):
+        return bool(obs.get("failed")) and any(obs["outs"])
+
+    def distribution(self, case, dist):
+        super().distribution(case, dist)
+        dist[f"faults_{sum(1 for o in case['ops'] if o[0] == 'fault')}"] += 1
+
+
 ASSUME_CACHE = ["time.monotonic is replaced by an integer-valued fake clock (float rounding of created+ttl not modelled)",
                 "source events have unique keys (the property's domain); the source is static apart from version changes of non-time fields"]
 
 CHECKS = {
-    "C09": Check("C09", [CacheFamily("C09", "oracle_C09", False, 1500, 20000, "histories")], ASSUME_CACHE),
+    "C09": Check("C09", [CacheFamily("C09", "oracle_C09", False, 1500, 20000, "histories"),
+                         FaultFamily("C09", 500, 6000)], ASSUME_CACHE),
     "C10": Check("C10", [CacheFamily("C10", "oracle_C10", True, 1500, 20000, "histories_with_mutations")], ASSUME_CACHE),
 }
